@@ -40,7 +40,36 @@ def rbytes(rng, n):
     return [rng.randrange(256) for _ in range(n)]
 
 
+def gen_os_bytes(rng, maxops):
+    """A finished object ending in the unaligned tail of a segment, then a top object built byte by byte."""
+    length = rng.choice([9, 12, 13, 20, 27, 33, 100, 101, 103])
+    drv, orc = ['OC %d' % length], []
+    tail = length % 8
+    m = length - rng.randrange(0, tail + 1) if tail else length
+    if rng.random() < 0.3:
+        m = max(1, m - 8)
+    b = rbytes(rng, m)
+    drv.append('OA %d %s' % (m, ' '.join(map(str, b)))); orc += [0, m] + b
+    drv.append('OF'); orc += [4]
+    for _ in range(rng.randint(1, min(maxops, 40))):
+        r = rng.random()
+        if r < 0.8:
+            x = rng.randrange(256)
+            drv.append('OB %d' % x); orc += [0, 1, x]
+        elif r < 0.9:
+            drv.append('OT'); orc += [6]
+        elif r < 0.95:
+            drv.append('OF'); orc += [4]
+        else:
+            drv.append('OK'); orc += [7]
+    drv += ['OT', 'OK']; orc += [6, 7]
+    nops = len(drv) - 1
+    return ' '.join(drv), 'OS %d %d %s' % (length, nops, ' '.join(map(str, orc))), {'len': length, 'ops': nops}
+
+
 def gen_os(rng, maxops):
+    if rng.random() < 0.25:
+        return gen_os_bytes(rng, maxops)
     length = rng.choice([0, 0, 8, 16, 24, 100])
     drv, orc = ['OC %d' % length], []
     n = rng.randint(4, maxops)
